@@ -533,6 +533,8 @@ class Interp:
             return LenOf(obj)
         if isinstance(obj, dict) and a in ("get", "keys", "values", "items"):
             return ("method", obj, a)
+        if isinstance(obj, ParamDict) and a in ("get", "keys"):
+            return ("method", obj, a)
         if a in ("copy", "append", "keys") or a == "T":
             return ("method", obj, a)
         raise AnalysisError("%s:%d unsupported attribute .%s" % (func.qualname, node.lineno, a))
@@ -888,6 +890,10 @@ class Interp:
                 return None
             if name == "keys" and isinstance(obj, ParamDict):
                 return sorted(obj.present)
+            if name == "get" and isinstance(obj, ParamDict):
+                if args[0] in obj.present or (args[0] in obj.entries):
+                    return obj.get(args[0])
+                return args[1] if len(args) > 1 else None
             if isinstance(obj, dict):
                 if name == "get":
                     return obj.get(args[0], args[1] if len(args) > 1 else None)
@@ -1108,6 +1114,8 @@ class GvnDomain:
         if fn == "sign":
             return A.signfn(a)
         if fn in ("log", "exp", "cos", "sin", "deg2rad"):
+            if a.is_zero() and fn != "log":
+                return A.const({"exp": 1, "cos": 1, "sin": 0, "deg2rad": 0}[fn])
             return A.opaque(fn, [a], positive=(fn == "exp"))
         raise AnalysisError("unsupported function %s" % fn)
 
